@@ -98,10 +98,10 @@ func (r RegistryHandler) Process(data []byte, context *base.DataProcessorContext
 	return r.DecryptWithHandler(handler, data, context)
 }
 
-// isEncryptedValue tells whether the whole value is one envelope - a serialized container or a bare
+// IsEncryptedValue tells whether the whole value is one envelope - a serialized container or a bare
 // AcraStruct/AcraBlock - so that it must not be encrypted a second time. An envelope followed by other bytes
 // is ordinary data: passing it through would leave those bytes in plaintext.
-func isEncryptedValue(data []byte) bool {
+func IsEncryptedValue(data []byte) bool {
 	length, serialized, err := ExtractSerializedContainer(data)
 	if err != nil || length != len(data) {
 		return false
@@ -125,7 +125,7 @@ func (r RegistryHandler) EncryptWithClientID(clientID, data []byte, setting conf
 	}
 
 	// case when data encrypted on app side (for example AcraStructs with AcraWriter) and should not be encrypted second time
-	if isEncryptedValue(data) {
+	if IsEncryptedValue(data) {
 		return data, nil
 	}
 
@@ -140,7 +140,7 @@ func (r RegistryHandler) EncryptWithClientID(clientID, data []byte, setting conf
 // EncryptWithHandler call EncryptWithClientID with specified handler
 func (r RegistryHandler) EncryptWithHandler(handler ContainerHandler, id, data []byte) ([]byte, error) {
 	// case when data encrypted on app side (for example AcraStructs with AcraWriter) and should not be encrypted second time
-	if isEncryptedValue(data) {
+	if IsEncryptedValue(data) {
 		return data, nil
 	}
 	encrypted, err := handler.EncryptWithClientID(id, data, &encryptor.DataEncryptorContext{Keystore: r.keystore})
